@@ -606,7 +606,7 @@ def r7(R):
 # ------------------------------------------------------------------ C17.R8
 @rule('C17.R8', 'the blob-aware copy loop restores a record WITHOUT a blob '
       'file only if the record is not a blob record or the source has no '
-      'file for it', props=['C12'], min_instances=1)
+      'file for it', props=['C13'], min_instances=1)
 def r8(R):
     f = R.prog.func('ZODB.blob.copyTransactionsFromTo')
     g, b, F = R.cfg(f, None, max_depth=0)
